@@ -23,6 +23,7 @@ type callSpec struct {
 	Kind    int  `json:"kind"` // 0 Write1 1 Writev 2 CtxWrite1 3 CtxWritev 4 Writer().Write
 	CtxDone bool `json:"ctxdone,omitempty"`
 	Size    int  `json:"size"`
+	Segs    int  `json:"segs,omitempty"` // vector writes: number of segments (0 = two)
 }
 type writerSpec struct {
 	Calls []callSpec `json:"calls"`
@@ -37,6 +38,19 @@ type cfg struct {
 	Parent  bool         `json:"parent"`  // a thread cancels the parent context
 	Strat   string       `json:"strat"`
 	Picks   []int        `json:"picks,omitempty"` // replay: index among enabled threads at each step
+}
+
+// segments splits a payload into n (1..3) vector segments; 0 means the historical 2-way split
+func segments(buf []byte, n int) [][]byte {
+	switch n {
+	case 1:
+		return [][]byte{buf}
+	case 3:
+		a, b := len(buf)/3, 2*len(buf)/3
+		return [][]byte{buf[:a], buf[a:b], buf[b:]}
+	}
+	h := len(buf) / 2
+	return [][]byte{buf[:h], buf[h:]}
 }
 
 var kindCoq = []string{"KWrite1", "KWritev", "KCtxWrite1", "KCtxWritev", "KWriter"}
@@ -168,13 +182,11 @@ func runCfg(c cfg, choose func(step int, en []*sched.Thread, last *sched.Thread)
 				case 0:
 					_, err = ch.Write1(buf)
 				case 1:
-					h := len(buf) / 2
-					_, err = ch.Writev([][]byte{buf[:h], buf[h:]})
+					_, err = ch.Writev(segments(buf, cs.Segs))
 				case 2:
 					_, err = ch.CtxWrite1(cctx, buf)
 				case 3:
-					h := len(buf) / 3
-					_, err = ch.CtxWritev(cctx, [][]byte{buf[:h], buf[h:]})
+					_, err = ch.CtxWritev(cctx, segments(buf, cs.Segs))
 				case 4:
 					_, err = ch.Writer().Write(buf)
 				}
